@@ -230,3 +230,58 @@ def h_packing(env, N, placements, cls='CliffordCircuit', measures=(), tag=''):
                         if k2 < k and not layer_of[id(o2[2])] < ml:
                             okm = False
         env.goal(tag + 'nothing_crosses_a_measurement', okm)
+
+
+def h_compose_history(env, N, places, extra, scenario, cls='CliffordCircuit'):
+    """compose onto an EMPTY / non-empty circuit, then keep using both circuits: the part keeps its own action, the
+    composite acts as part + later gates, and composing the same block k times acts as the block k times"""
+    M = Mods(env)
+    prog = [['gen', q] for q in places] + [['gen', extra]]
+    gates, tables, _ = make_gates(env, M, N, prog)
+    part = M.ci.CliffordCircuit(N)
+    for g in gates[:-1]:
+        part.take(g)
+    gs = env.bits('in', (1, 2 * N))
+    ps = env.phases('in_ps', (1,))
+
+    def expect(ts):
+        g, p = gs[0], ps[0]
+        for t in ts:
+            g, p = ref.ref_transform(g, p, t[0], t[1])
+        return g, p
+
+    def action(circ):
+        o = M.pa.PauliList(gs.copy(), ps.copy())
+        circ.forward(o)
+        return o
+    if scenario == 'extend_total':
+        total = M.ci.identity_circuit(N)
+        res = env.run(lambda: (total.compose(part), total.take(gates[-1]), action(part), action(total)))
+        env.goal('no_exception', b_not(res.raised))
+        if res.value is not None:
+            a, t = res.value[2], res.value[3]
+            g, p = expect(tables[:-1])
+            env.goal('part_keeps_its_action', b_and(arr_eq(a.gs[0], g), eq(a.ps[0], p)))
+            g, p = expect(tables)
+            env.goal('composite_is_part_then_gate', b_and(arr_eq(t.gs[0], g), eq(t.ps[0], p)))
+    elif scenario == 'extend_part':
+        total = M.ci.identity_circuit(N)
+        res = env.run(lambda: (total.compose(part), part.take(gates[-1]), action(part), action(total)))
+        env.goal('no_exception', b_not(res.raised))
+        if res.value is not None:
+            a, t = res.value[2], res.value[3]
+            g, p = expect(tables)
+            env.goal('part_is_extended', b_and(arr_eq(a.gs[0], g), eq(a.ps[0], p)))
+            g, p = expect(tables[:-1])
+            env.goal('composite_unaffected', b_and(arr_eq(t.gs[0], g), eq(t.ps[0], p)))
+    elif scenario == 'repeat':
+        total = M.ci.identity_circuit(N)
+        res = env.run(lambda: (total.compose(part), total.compose(part), total.compose(part), action(total), action(part)))
+        env.goal('no_exception', b_not(res.raised))
+        if res.value is not None:
+            t, a = res.value[3], res.value[4]
+            g, p = expect(tables[:-1] * 3)
+            env.goal('three_copies', b_and(arr_eq(t.gs[0], g), eq(t.ps[0], p)))
+            g, p = expect(tables[:-1])
+            env.goal('block_keeps_its_action', b_and(arr_eq(a.gs[0], g), eq(a.ps[0], p)))
+            env.goal('block_gate_count', sum(len(l.gates) for l in part.layers_forward()) == len(places))
